@@ -116,7 +116,7 @@ func c04RunBuy(env world.Env, g c04Group, b c04Buy) (vs []mc.Viol, class string)
 		referred, refAddr = true, w.A("A").Bech
 	}
 	switch b.referral {
-	case "self":
+	case "self", "self-caps": // self-caps: the payer signs with the capital spelling of its address and names itself (lower case)
 		refStr = payer.Bech
 	case "other":
 		refStr, referred = w.A("R").Bech, true
@@ -181,7 +181,11 @@ func c04RunBuy(env world.Env, g c04Group, b c04Buy) (vs []mc.Viol, class string)
 	before := w.Balances(ctx)
 	supBefore := w.App.BankKeeper.GetSupply(ctx, "ujkl").Amount
 	storeBefore := w.DumpStore(ctx, "storage")
-	msg := storagetypes.NewMsgBuyStorage(payer.Bech, forAcc.Bech, b.days, b.bytes, "ujkl")
+	creator := payer.Bech
+	if b.referral == "self-caps" {
+		creator = strings.ToUpper(creator)
+	}
+	msg := storagetypes.NewMsgBuyStorage(creator, forAcc.Bech, b.days, b.bytes, "ujkl")
 	msg.Referral = refStr
 	res := env.Deliver(msg)
 	ctx = env.Ctx()
@@ -376,7 +380,7 @@ func c04Enum(thorough bool) mc.Enum {
 	ratios := [][2]int64{{40, 25}, {0, 0}, {35, 25}, {60, 40}, {10, 90}, {30, 25}}
 	bytesSet := []int64{gbBytes / 2, gbBytes, 3 * gbBytes, 5_000 * gbBytes, 20_000 * gbBytes}
 	daysSet := []int64{1, 29, 30, 365, 366, 400}
-	refs := []string{"none", "self", "other", "name-other", "name-self", "unregistered", "garbage"}
+	refs := []string{"none", "self", "other", "name-other", "name-self", "unregistered", "garbage", "self-caps"}
 	if thorough {
 		feeds = append(feeds, "0", "-1", "abc", "1000000")
 		ratios = append(ratios, [2]int64{100, 0}, [2]int64{0, 100}, [2]int64{5, 5})
